@@ -18,8 +18,10 @@ CONSTANTS Ids,      \* record identifiers (strings; some are suffixes/prefixes o
           LogIds,   \* log record identifiers
           Aliases   \* BOOLEAN subset: {FALSE} or {FALSE,TRUE}; TRUE = id passed with the store suffix
 
-VARIABLES comp, nc, logs, mode, ret
-vars == <<comp, nc, logs, mode, ret>>
+VARIABLES comp, nc, logs, mode, ret,
+          fresh   \* implementation-shaped: the store OBJECT was just opened and no call has been made on it yet
+                  \* (its lazily built member lists are unloaded); makes 'first call after re-open' a distinct state
+vars == <<comp, nc, logs, mode, ret, fresh>>
 
 None == "None"
 Modes == {"r", "w", "a"}
@@ -29,9 +31,10 @@ TypeOK == /\ comp \in [Ids -> Data \cup {None}]
           /\ logs \in [LogIds -> BOOLEAN]
           /\ mode \in Modes
           /\ ret  \in {"ok", "raised", "init"}
+          /\ fresh \in BOOLEAN
 
-St == [comp |-> comp, nc |-> nc, logs |-> logs, mode |-> mode]
-StP == [comp |-> comp', nc |-> nc', logs |-> logs', mode |-> mode']
+St == [comp |-> comp, nc |-> nc, logs |-> logs, mode |-> mode, fresh |-> fresh]
+StP == [comp |-> comp', nc |-> nc', logs |-> logs', mode |-> mode', fresh |-> fresh']
 
 Log(act, args) == Emit([from |-> St, act |-> act, args |-> args, to |-> StP, ret |-> ret'])
 
@@ -40,11 +43,13 @@ Init == /\ comp = [i \in Ids |-> None]
         /\ logs = [i \in LogIds |-> FALSE]
         /\ mode = "w"
         /\ ret  = "init"
+        /\ fresh = TRUE
 
 Refused == /\ ret' = "raised" /\ UNCHANGED <<comp, nc, logs, mode>>
 
 (* write(unique_id=i, data=d): completes i, retiring exactly i's not-completed record *)
 WriteT(i, d, al) ==
+    /\ fresh' = FALSE
     /\ \/ /\ mode = "r" /\ Refused
        \/ /\ mode = "a" /\ comp[i] # None /\ Refused
        \/ /\ mode = "a" /\ comp[i] = None /\ nc[i] # None
@@ -62,6 +67,7 @@ Write(i, d, al) == WriteT(i, d, al) /\ Log("Write", <<i, d, al>>)
 
 (* write_not_completed(unique_id=i, data=d) *)
 WriteNCT(i, d, al) ==
+    /\ fresh' = FALSE
     /\ \/ /\ mode = "r" /\ Refused
        \/ /\ mode = "a" /\ (comp[i] # None \/ nc[i] # None) /\ Refused
        \/ /\ (mode = "w" \/ (mode = "a" /\ comp[i] = None /\ nc[i] = None))
@@ -73,6 +79,7 @@ WriteNCT(i, d, al) ==
 WriteNC(i, d, al) == WriteNCT(i, d, al) /\ Log("WriteNC", <<i, d, al>>)
 
 WriteLogT(l, d) ==
+    /\ fresh' = FALSE
     /\ \/ /\ mode = "r" /\ Refused
        \/ /\ mode # "r"
           /\ ret' = "ok"
@@ -82,6 +89,7 @@ WriteLog(l, d) == WriteLogT(l, d) /\ Log("WriteLog", <<l, d>>)
 
 (* drop_not_completed(unique_id=i): read-only stores must not change (raising or not) *)
 DropNCT(i, al) ==
+    /\ fresh' = FALSE
     /\ \/ /\ mode = "r" /\ ret' \in {"ok", "raised"} /\ UNCHANGED <<comp, nc, logs, mode>>
        \/ /\ mode # "r"
           /\ ret' = "ok"
@@ -90,6 +98,7 @@ DropNCT(i, al) ==
 DropNC(i, al) == DropNCT(i, al) /\ Log("DropNC", <<i, al>>)
 
 DropAllNCT ==
+    /\ fresh' = FALSE
     /\ \/ /\ mode = "r" /\ ret' \in {"ok", "raised"} /\ UNCHANGED <<comp, nc, logs, mode>>
        \/ /\ mode # "r"
           /\ ret' = "ok"
@@ -99,6 +108,7 @@ DropAllNC == DropAllNCT /\ Log("DropAllNC", <<>>)
 
 (* close() followed by opening the same source in mode m: nothing is lost *)
 ReopenT(m) ==
+    /\ fresh' = TRUE
     /\ mode' = m
     /\ ret' = "ok"
     /\ UNCHANGED <<comp, nc, logs>>
